@@ -111,6 +111,14 @@ func init() {
 					})
 				}
 			}
+			// wide loads (every width 1..72) from a long block, before and after stores that split it
+			long := ""
+			for i := 0; i < 80; i++ {
+				long += fmt.Sprintf("%02x", 0x80+i)
+			}
+			for _, ops := range [][]memOp{nil, {{33, 2, "const"}}, {{31, 3, "const"}, {64, 1, "const"}}, {{80, 4, "const"}, {0, 1, "const"}}} {
+				memDoRW(r, memCase{Mem: "bytes", Blocks: []memBlock{{0, long}}, Ops: ops, MaxA: 12, MaxW: 72})
+			}
 			r.Sample(memCase{Mem: "bytes", Blocks: layoutRuns(0b101100, 6), Ops: []memOp{{0, 2, "const"}, {1, 3, "wide"}}, MaxA: 11, MaxW: 3})
 		},
 		Replay: memReplay,
